@@ -25,18 +25,57 @@ var tagCounter atomic.Int64
 // oracles can dump the raw ordered content of a database through the public KV interface.
 type capFactory struct {
 	kv.Factory
-	mu  sync.Mutex
-	kvs []kv.KV
+	mu           sync.Mutex
+	kvs          []kv.KV
+	beforeCommit func(kv.KV)
+	afterCommit  func(kv.KV, error)
 }
 
 func (f *capFactory) NewKV(ns string, shard int64) (kv.KV, error) {
 	k, err := f.Factory.NewKV(ns, shard)
 	if err == nil {
+		k = &hookKV{KV: k, f: f}
 		f.mu.Lock()
 		f.kvs = append(f.kvs, k)
 		f.mu.Unlock()
 	}
 	return k, err
+}
+
+// hookKV / hookBatch let a test observe and pause WriteBatch.Commit (the only instant at which the
+// database content changes) through the public kv interfaces.
+type hookKV struct {
+	kv.KV
+	f *capFactory
+}
+
+func (k *hookKV) NewWriteBatch() kv.WriteBatch {
+	return &hookBatch{WriteBatch: k.KV.NewWriteBatch(), k: k}
+}
+
+type hookBatch struct {
+	kv.WriteBatch
+	k *hookKV
+}
+
+func (b *hookBatch) Commit() error {
+	b.k.f.mu.Lock()
+	before, after := b.k.f.beforeCommit, b.k.f.afterCommit
+	b.k.f.mu.Unlock()
+	if before != nil {
+		before(b.k.KV)
+	}
+	err := b.WriteBatch.Commit()
+	if after != nil {
+		after(b.k.KV, err)
+	}
+	return err
+}
+
+func (f *capFactory) setHooks(before func(kv.KV), after func(kv.KV, error)) {
+	f.mu.Lock()
+	f.beforeCommit, f.afterCommit = before, after
+	f.mu.Unlock()
 }
 
 func (f *capFactory) last() kv.KV {
